@@ -12,6 +12,7 @@ from pyvc.contract import bounded
 
 # ====================================================================== C19
 @bounded('syx-roundtrip', ('C19',), 'message lists of length 0..6 mixing sysex (payload lengths 0,1,2,127,128,1000,5000) and non-sysex messages x binary/plaintext; '
+         'single payloads of 1363..350000 bytes (files of 4 KiB .. 1 MiB) x binary/plaintext; '
          'plaintext re-laid-out with spaces, tabs, newlines, CRLF, no trailing newline; one file of 3000 messages per format; non-hex text; files not starting with F0; 150 (1500 thorough) trials')
 def syx_roundtrip(tier, seed, only=None):
     import mido
@@ -60,6 +61,22 @@ def syx_roundtrip(tier, seed, only=None):
             if got != many:
                 fails.append(dict(clause='read_syx_file(write_syx_file(msgs)) == the sysex messages of msgs', inputs=dict(messages=3000, plaintext=plaintext),
                                   detail='%d messages came back, first %r' % (len(got), got[:1])))
+        # large dumps: files longer than the block sizes a chunked reader would plausibly use (4 KiB .. 1 MiB); a plain-text
+        # file has 3 characters per byte, so these lengths put a block boundary inside a hex pair / right after one
+        for ln in (1363, 2729, 21843, 21844, 21845, 43690, 70000, 350000):
+            big = [mido.Message('sysex', data=[(i * 7) % 128 for i in range(ln)]), mido.Message('clock'), mido.Message('sysex', data=[1, 2, 3])]
+            want = [big[0], big[2]]
+            for plaintext in (False, True):
+                n += 1
+                try:
+                    mido.write_syx_file(path, big, plaintext=plaintext)
+                    got = mido.read_syx_file(path)
+                    ok, detail = got == want, '%d messages came back, payload lengths %r' % (len(got), [len(m.data) for m in got[:3]])
+                except Exception as ex:
+                    ok, detail = False, repr(ex)
+                if not ok:
+                    fails.append(dict(clause='read_syx_file(write_syx_file(msgs)) == the sysex messages of msgs', inputs=dict(payload_length=ln, plaintext=plaintext),
+                                      detail=detail[:300]))
         for bad in (b'F0 0G F7', b'F0 1 F7', b'hello', b'F0 00 F', b'0xF0 00 F7'):
             n += 1
             open(path, 'wb').write(bad)
